@@ -48,6 +48,7 @@ Definition sx_of_conv (c : conv) : sx :=
   | CTruthy t f => SL [SN 7; SB t; SB f]
   | CConst v => SL [SN 8; SB v]
   | CIntClock => SL [SN 9]
+  | CIntOr d => SL [SN 11; SN d]
   | CParent k => SL [SN 10; SB k]
   end.
 
